@@ -495,6 +495,7 @@ pub fn batch_child(api: &dyn GlobalApi, args: &[String]) -> i32 {
             let text = serde_json::to_string(s).unwrap();
             // saved BEFORE execution: if the process dies, this is the in-flight case
             let _ = std::fs::write(&status, &text);
+            st.sample(|| json!({"check": "sequence", "variant": s.variant, "ops": s.ops.iter().map(short).collect::<Vec<_>>()}));
             let r = exec(api, s, st);
             if counting.get() {
                 match &r {
